@@ -248,6 +248,29 @@ J gen_hostile_cli(uint64_t seed, const J &ov)
 		ops.push(op);
 	}
 	uint64_t ser = seed % 1000 * 100000;
+	std::string junk = focus == "spoof" ? (r.chance(0.15) ? "idle" : r.chance(0.18) ? "handshake" : "") : "";
+	if (!junk.empty()) {
+		// a steady trickle of datagrams that match nothing (one every 0.3-0.9 s for more than a minute), (a) into an idle tunnel,
+		// (b) from the very start while the client's first query is lost: being ignored includes not keeping the client from
+		// sending its keep-alive pings or from re-sending a handshake query
+		ops = J::arr();
+		double gap = junk == "idle" ? 0.3 + r.uniform() * 0.35 : 0.4 + r.uniform() * 0.5;
+		for (double t = junk == "idle" ? 1.0 : 0.02; t < 75; t += gap * (0.8 + 0.4 * r.uniform())) {
+			J op = J::obj(); op.set("ref", junk == "idle" ? "T0" : "abs"); op.set("t", (long long)(t * 1e6)); op.set("unmatched", true);
+			op.set("op", "dgram"); op.set("from", "atk0"); op.set("from_ip", "10.9.2.1"); op.set("to", "c0"); op.set("dport", "auto"); op.set("spoof_ip", "10.9.0.1"); op.set("sport", 53);
+			if (r.chance(0.5)) { Bytes q = dns_build_query((uint16_t)r.range(0, 65535), "www.example.org", QT_A, false); op.set("hex", hexs(hostile_answer(r, q, 0))); }
+			else op.set("hex", hexs(r.bytes((size_t)r.range(12, 60))));
+			ops.push(op);
+		}
+		if (junk == "handshake") { J f = J::obj(); f.set("ref", "abs"); f.set("start_drought_us", (long long)r.range(200000, 900000)); cfg.set("faults", f); }
+		cfg.set("junk", junk);
+		canary_traffic(r, ops, junk == "idle" ? 80 : 70, junk == "idle" ? 95 : 85, 0.5 + r.uniform(), ser, 200);
+		cfg.set("dur_s", junk == "idle" ? 105 : 40);
+		cfg.set("tmax_s", 300);
+		cfg.set("max_events", 600000);
+		plan.set("cfg", cfg); plan.set("ops", ops);
+		return plan;
+	}
 	canary_traffic(r, ops, 0.2, 30, 0.3 + r.uniform() * 2, ser, 200);
 	cfg.set("dur_s", 40);
 	cfg.set("tmax_s", 200);
@@ -328,6 +351,10 @@ World *build_hostile_cli(const J &plan)
 		w->add(mk_c01_integrity(w));
 		w->add(mk_c02_delivery(w, true, false, "C06"));
 		World *w2 = w;
+		if (w->cfg.gets("junk") == "handshake") w->result_hooks.push_back([w2](J &) {
+			// one lost query and a trickle of unrelated datagrams: the handshake takes a few seconds longer, not as long as the trickle lasts
+			if (!w2->S.capped && w2->all_in_tunnel && w2->T0 > 30ull * 1000000) { char b[160]; snprintf(b, sizeof b, "the handshake took %.1f s while unmatched datagrams kept arriving (one query lost at the start)", w2->T0 / 1e6); w2->S.violations.push_back({"C06", "spoof.handshake_stalled", b}); }
+		});
 		w->result_hooks.push_back([w2](J &) { if (!w2->S.capped && !w2->all_in_tunnel) w2->S.violations.push_back({"C06", "spoof.handshake_failed", "the client did not reach tunnel mode although only unmatched off-path answers were injected on a clean path"}); });
 	}
 	std::string focus = h.gets("focus", "any");
